@@ -371,6 +371,43 @@ for sl in ('rgba', 'abgr'):
     add(sl + '_bgr', sl + '8_pixel_t', 'bgr8_pixel_t', ['from_rgba'], [Check('from_rgba', 'h_from_rgba', enforce='from_rgba', replace=['channel_multiply'], timeout=300, flags=['--z3'])])
 for sl in ('rgba', 'abgr', 'bgra'):
     add(sl + '_cmyk', sl + '8_pixel_t', 'cmyk8_pixel_t', ['from_rgba'], [Check('from_rgba', 'h_from_rgba', enforce='from_rgba', replace=['channel_multiply', 'rgb_to_cmyk_c'], timeout=300, flags=['--z3'])])
+
+# ---------------------------------------------------------------------------------------------------------------------------------------
+# detail::alpha_or_max_impl(p, false_type): the alpha given to a destination when the source colour space has none
+X_AOM = [X('aom_noalpha', CC, r'auto alpha_or_max_impl\(Pixel const&, std::false_type\) -> typename channel_type<Pixel>::type\s*\{', count=1,
+           rules=[('R8.ch_max', r'channel_traits<typename channel_type<Pixel>::type>::max_value\(\)', 'SRC_CH_MAXV', False),
+                  ('R8.nl_max', r'\(std::numeric_limits<typename channel_type<Pixel>::type>::max\)\(\)', 'SRC_NUMERIC_LIMITS_MAX', False)])]
+AOM_C = r'''
+typedef SRC_CH_T channel_t;
+channel_t alpha_or_max_noalpha(void)
+__CPROVER_assigns()
+__CPROVER_ensures(RET == (channel_t)SRC_CH_MAXV)          /* converting to rgba sets alpha to max: the maximum of the channel's RANGE (1.0 for float32_t, not the largest float) */
+@@aom_noalpha@@
+#ifndef VERIF_NATIVE
+void h_alpha_or_max(void){ alpha_or_max_noalpha(); __CPROVER_assert(0, "VACUITY"); }
+#endif
+'''
+PROBE_AOM = r'''
+  using ch_t = channel_type<SRCP>::type; using base_t = base_channel_type<ch_t>::type;
+  P_TYPE("SRC_CH_T", base_t); P_VAL("SRC_CH_MAXV", (base_t)channel_traits<ch_t>::max_value()); P_VAL("SRC_NUMERIC_LIMITS_MAX", (base_t)(std::numeric_limits<ch_t>::max)());
+'''
+REPLAY_AOM = r'''
+#include <boost/gil.hpp>
+#include "vreplay.hpp"
+using namespace boost::gil;
+#include "inst.hpp"
+int main(int argc, char** argv){ vr::parse(argc, argv);
+  using ch_t = channel_type<SRCP>::type; SRCP s; static_fill(s, channel_traits<ch_t>::max_value());
+  pixel<ch_t, rgba_layout_t> d; color_convert(s, d);
+  if (get_color(d, alpha_t()) != channel_traits<ch_t>::max_value()) REPRODUCED("converting a pixel without alpha to rgba gives alpha %g, expected the channel maximum %g", (double)get_color(d, alpha_t()), (double)channel_traits<ch_t>::max_value());
+  rgba8_pixel_t d8; color_convert(s, d8); if (get_color(d8, alpha_t()) != 255) REPRODUCED("converting to rgba8 gives alpha %d, expected 255", (int)get_color(d8, alpha_t()));
+  NOT_REPRODUCED("alpha is set to the channel maximum"); }
+'''
+
+for _n, _t in (('gray8', 'gray8_pixel_t'), ('rgb16', 'rgb16_pixel_t'), ('rgb32f', 'rgb32f_pixel_t'), ('cmyk32f', 'cmyk32f_pixel_t'), ('gray32f', 'gray32f_pixel_t')):
+    UNITS.append(Unit('alpha_or_max.' + _n, 'C09', AOM_C, extracts=X_AOM, replay=REPLAY_AOM, probe=PROBE_AOM, probe_includes=['boost/gil.hpp', 'limits'],
+                      insts=[(_n, 'quick', {'T_SRCP': _t})], checks=[Check('alpha_or_max', 'h_alpha_or_max', enforce='alpha_or_max_noalpha', flags=['--nan-check'])],
+                      assumed=['alpha_or_max dispatches on whether the colour space contains alpha_t (mp_contains); the probe evaluates channel_traits<>::max_value() and numeric_limits<>::max() of the channel type with g++']))
 # round trip rgb -> cmyk -> rgb, one cell per black level
 NEEDED['roundtrip'] = ['rgb_to_cmyk', 'cmyk_to_rgb']
 UNITS.append(Unit('cc.roundtrip', 'C09', C.replace('IDX_dst_red', 'IDX_src_red').replace('IDX_dst_green', 'IDX_src_green').replace('IDX_dst_blue', 'IDX_src_blue') if False else C,
